@@ -133,6 +133,17 @@ def run(ck: Check, prog: Program) -> None:
                        f'Method.{pname} is {"computed by a property/method" if shadow is not None else "not assigned from the constructor argument"}: bind() must use the '
                        f'setting given when THIS method was registered; metadata kept on the function object is shared by every registration of '
                        f'that function (the last one wins), so the context would be excluded/injected under another registration\'s name')
+    # ... and they travel with the method when a registry is merged into another: copy() rebuilds it with context= and positional=
+    from ..inline import inlined_program as _inl
+    from .c15 import _copy_applies_kwargs
+    cprog = _inl(prog, ['pjrpc.server.dispatcher.Method.copy', 'pjrpc.server.dispatcher.ViewMethod.copy'])
+    for cq in ('pjrpc.server.dispatcher.Method', 'pjrpc.server.dispatcher.ViewMethod'):
+        cp = cprog.cls(cq).methods.get('copy')
+        okc, whyc = _copy_applies_kwargs(cprog, cp) if cp is not None else (False, 'copy() not found')
+        ck.ob('CTX-SOURCE', f'{cq.rsplit(".", 1)[-1]}.copy keeps the context / positional setting of the registration', okc, sample={'form': whyc})
+        if not okc:
+            ck.finding('CTX-SOURCE', cq + '.copy', 'copy drops a registration setting', 'pjrpc/server/dispatcher.py', cp.node.lineno if cp else 0,
+                       f'a merged method must inject the context exactly as the original registration asked: {whyc}')
     # ---- RESULT-PASSTHRU ------------------------------------------------------------------------
     from .common import dispatcher_program
     prog = dispatcher_program(prog)
@@ -528,6 +539,11 @@ def _bind_strict(ck: Check, prog: Program) -> None:
             problems.append((sgf.node.lineno, f'signature() rewrites a kept parameter (`{fm.split(":", 1)[1]}`): the binder then accepts calls a direct Python call '
                              f'cannot make (e.g. a keyword-only parameter filled from a positional list) or refuses ones it can'))
     if sgf is not None:
+        from .c17 import exclusion_source_problems
+        for line_, txt_ in exclusion_source_problems(prog, sgf):
+            problems.append((line_, txt_ + ': a parameter can then be stripped from (or left in) the signature because of another registration '
+                             'of the same function, so a call that binds is refused with -32602 or the context name becomes settable'))
+    if sgf is not None:
         from .c17 import rewritten_parameters
         for line_, txt_ in rewritten_parameters(prog, sgf):
             problems.append((line_, f'signature() rewrites a kept parameter (`{txt_}`): the binder then accepts calls a direct Python call '
@@ -569,6 +585,12 @@ def _bind_strict(ck: Check, prog: Program) -> None:
 
 
 MUTANTS = [
+    dict(name='copy-drops-positional', file='pjrpc/server/dispatcher.py', nth=0,
+         find='cls_kwargs = dict(name=self.name, context=self.context, positional=self.positional)',
+         replace='cls_kwargs = dict(name=self.name, context=self.context)', expect='CTX-SOURCE'),
+    dict(name='exclusion-extended-from-function-metadata', file='pjrpc/server/validators/base.py',
+         find='        signature = inspect.signature(method)\n',
+         replace="        signature = inspect.signature(method)\n        exclude = (*exclude, utils.get_meta(method).get('context_name'))\n", expect='BIND-STRICT'),
     dict(name='drop-exclude', file='pjrpc/server/dispatcher.py', find='self.method, params, exclude=(self.context,) if self.context else (), **self.validator_args,',
          replace='self.method, params, **self.validator_args,', expect='CTX-EXCLUDED'),
     dict(name='context-before-merge', file='pjrpc/server/dispatcher.py',
